@@ -153,7 +153,7 @@ func r131(c *Ctx, rule string) {
 		for _, cs := range callsToName(fn, "(net/http.Header).Set") {
 			absent := false
 			for _, ce := range dominatingConds(cs.instr.Block()) {
-				cm, ok := asCmp(ce.cond, ce.taken)
+				cm, ok := ce.asCmp()
 				if !ok || cm.op != token.EQL {
 					continue
 				}
@@ -333,7 +333,7 @@ func r132(c *Ctx) {
 			if f, _, ok := fieldLoad(ce.cond); ok && f.Name() == "StripPrefix" && ce.taken {
 				strip = true
 			}
-			if cm, ok := asCmp(ce.cond, ce.taken); ok && cm.op == token.NEQ {
+			if cm, ok := ce.asCmp(); ok && cm.op == token.NEQ {
 				if s, ok := constString(cm.y); ok && s == "/" {
 					nonRoot = true
 				}
